@@ -112,7 +112,7 @@ def make_path(steps, spelling):
 
 def gen_value(rng):
     k = rng.choice(['scalar', 'scalar', 'opaque', 'list', 'dict', 'spec', 'texpr', 'selfref', 'tleaves', 'subclass-dict', 'subclass-list',
-                    'tuple-tleaves', 'frozenset-tleaves', 'plain-tuple'])
+                    'tuple-tleaves', 'frozenset-tleaves', 'plain-tuple', 'selfref-tleaves', 'shared-sub-tleaves'])
     return k
 
 
@@ -149,6 +149,17 @@ def make_value(kind, rng_state_val, target):
         a = [1]; a.append(a)
         b = [1]; b.append(b)
         return a, b
+    if kind == 'selfref-tleaves':
+        # a value that contains itself AND leaves that are evaluated (each T leaf is an evaluation of its own, in the middle of
+        # rebuilding the value)
+        a = [T.__('class__').__('name__'), {'again': T.__('class__').__('name__')}]; a.append(a); a[1]['up'] = a
+        b = [tname, {'again': tname}]; b.append(b); b[1]['up'] = b
+        return a, b
+    if kind == 'shared-sub-tleaves':
+        # one sub-container referenced twice: it stays ONE container in what is stored
+        sa = [T.__('class__').__('name__'), 'lit']
+        sb = [tname, 'lit']
+        return {'p': sa, 'q': sa, 'r': [sa]}, {'p': sb, 'q': sb, 'r': [sb]}
     if kind == 'tuple-tleaves':
         # T / Spec leaves are evaluated whatever the outermost container of the value is: a tuple, a tuple in a tuple ...
         return (T.__('class__').__('name__'), ('lit', Spec(lambda t: type(t).__name__))), (tname, ('lit', tname))
